@@ -541,6 +541,29 @@ pub fn check(c: &Case) -> R {
             }
             Err(e) => fail!("get_kind_seek on {} failed: {:?}", show_bytes(&written), e),
         }
+        // get_kind_seek on a stream that is NOT at offset 0 (a section of a larger stream, a cursor moved to a
+        // later record): the byte is peeked at the current position and the position restored
+        if c.recs.len() >= 2 {
+            let j = 1 + (c.cut_seed as usize) % (c.recs.len() - 1);
+            let mut head = c.clone();
+            head.recs.truncate(j);
+            let off = write_with_library(&head)?.len();
+            ensure!(off < written.len() && written[off] == if kind == Kind::Fasta { b'>' } else { b'@' }, "harness: record {} of {} does not start at offset {}", j, show_bytes(&written), off);
+            let mut src = ChunkedReader::whole(written.clone(), sched_of(io), None);
+            use std::io::{Seek, SeekFrom};
+            ensure!(src.seek(SeekFrom::Start(off as u64)).is_ok(), "harness: seek failed");
+            match fastx::get_kind_seek(&mut src) {
+                Ok(k) => {
+                    let k = if k == fastx::Kind::FASTA { Kind::Fasta } else { Kind::Fastq };
+                    ensure!(k == kind, "get_kind_seek at offset {} of {} says {:?}, the stream is {:?}", off, show_bytes(&written), k, kind);
+                    let pos = src.stream_position().unwrap_or(u64::MAX);
+                    ensure!(pos == off as u64, "get_kind_seek called at offset {} of {} leaves the stream at offset {}", off, show_bytes(&written), pos);
+                    let items = parse_kind(kind, src, io, cap_items, &|| format!("reader after get_kind_seek at offset {} of {} with {:?}", off, show_bytes(&written), io))?;
+                    expect_exact(&items, &want[j..], "same reader after get_kind_seek at the start of a later record", &written, io)?;
+                }
+                Err(e) => fail!("get_kind_seek at offset {} of {} failed: {:?}", off, show_bytes(&written), e),
+            }
+        }
         // EitherRecords, with and without asking kind() first, on both layouts
         for (j, data) in [&written, &relaid].into_iter().enumerate() {
             let io = &c.ios[j % c.ios.len()];
